@@ -33,6 +33,7 @@ class Exec(ExprMixin, CallMixin, StmtMixin):
     isinstance_handlers = {}
     iter_handlers = {}
     sortedof_handlers = {}
+    sortkey_handlers = {}
     global_values = {}
     global_calls = {}
     type_aliases = {}
@@ -56,6 +57,9 @@ class Exec(ExprMixin, CallMixin, StmtMixin):
         self.last_filter = None
         self.lemma_instances = set()
         self.inlined = []
+        self.ghost_hooks = {}
+        self.loop_text_seen = {}
+        self.last_sort = None
         self._ctx_init()
         self.number_nodes(fn)
 
@@ -97,6 +101,10 @@ class Exec(ExprMixin, CallMixin, StmtMixin):
                     st.assume(f)
         self.pre_pc = list(st.pc)
         body = self.inline_decorators(front.strip_docstring(self.fn.body))
+        self.install_ghost_hooks(body)
+        if getattr(con, "ghost_init", None):
+            ginit = ast.parse(con.ghost_init).body
+            body = ginit + body
         self.number_nodes(ast.Module(body=body, type_ignores=[]))
         outs = self.exec_block(body, st)
         self.exits = []
@@ -189,7 +197,9 @@ class Exec(ExprMixin, CallMixin, StmtMixin):
                 for a, v in con.ghost_exit(gctx).items():
                     rec[a] = v
                 st.env[recv] = Val(st.env[recv].ty, rec)
-            ctx = S.Ctx(st.env, old=self.old_ctx, result=res, loops=st.loops)
+            ctx = S.Ctx(st.env, old=self.old_ctx, result=res, loops=st.loops, extra={"ex": self, "path": st.path, "ghost": st.ghost})
+            if hasattr(con, "witness"):
+                ctx._extra["wit"] = con.witness(ctx)
             if hasattr(con, "lemmas"):
                 for label, f in con.lemmas(ctx):
                     pc.append(f)
